@@ -62,12 +62,12 @@ func mkLS(set int) conv.LS {
 }
 
 func mkD() md.D {
-	return md.D{A: "pre-A", B: 901, C: "pre-C", D: "pre-D", N: md.Nest{X: "pre-NX", Y: 902, Z: "pre-NZ", In: md.Inner{W: "pre-NW", V: 905}}, P: &md.Nest{X: "pre-PX", Y: 904, Z: "pre-PZ"}, Base: md.Base{E1: "pre-E1", E2: "pre-E2"}, Q: 903, R: "pre-R", L: []string{"pre-L"}, M: map[string]string{"pre": "M"}, G: 907, L2: []int64{908}, H: 909, HS: "pre-HS"}
+	return md.D{A: "pre-A", B: 901, C: "pre-C", D: "pre-D", N: md.Nest{X: "pre-NX", Y: 902, Z: "pre-NZ", In: md.Inner{W: "pre-NW", V: 905}}, P: &md.Nest{X: "pre-PX", Y: 904, Z: "pre-PZ"}, Base: md.Base{E1: "pre-E1", E2: "pre-E2"}, Q: 903, R: "pre-R", L: []string{"pre-L"}, M: map[string]string{"pre": "M"}, G: 907, L2: []int64{908}, H: 909, HS: "pre-HS", HV: "pre-HV"}
 }
 
 // mkSD: a source of the destination's own type (methods with the same type on both sides)
 func mkSD(set int) md.D {
-	s := md.D{A: "a-src", B: 12, C: "c-src", D: "d-src", N: md.Nest{X: "nx-src", Y: 22, Z: "nz-src", In: md.Inner{W: "nw-src", V: 24}}, Base: md.Base{E1: "e1-src", E2: "e2-src"}, Q: 51, R: "r-src", L: []string{"l1-src", "l2-src", "l3-src"}, M: map[string]string{"k1": "m1-src", "k2": "m2-src"}, G: 61, L2: []int64{91, 92, 93}, H: 65, HS: "hs-src"}
+	s := md.D{A: "a-src", B: 12, C: "c-src", D: "d-src", N: md.Nest{X: "nx-src", Y: 22, Z: "nz-src", In: md.Inner{W: "nw-src", V: 24}}, Base: md.Base{E1: "e1-src", E2: "e2-src"}, Q: 51, R: "r-src", L: []string{"l1-src", "l2-src", "l3-src"}, M: map[string]string{"k1": "m1-src", "k2": "m2-src"}, G: 61, L2: []int64{91, 92, 93}, H: 65, HS: "hs-src", HV: "hv-src"}
 	if set == 0 {
 		s.P = &md.Nest{X: "px-src", Y: 32, Z: "pz-src", In: md.Inner{W: "pw-src", V: 34}}
 	}
@@ -75,7 +75,7 @@ func mkSD(set int) md.D {
 }
 
 func mkLD() conv.LD {
-	return conv.LD{A: "pre-A", B: 901, C: "pre-C", D: "pre-D", N: md.Nest{X: "pre-NX", Y: 902, Z: "pre-NZ", In: md.Inner{W: "pre-NW", V: 905}}, P: &md.Nest{X: "pre-PX", Y: 904, Z: "pre-PZ"}, Base: md.Base{E1: "pre-E1", E2: "pre-E2"}, Q: 903, R: "pre-R", L: []string{"pre-L"}, M: map[string]string{"pre": "M"}, G: 907, L2: []int64{908}, H: 909, HS: "pre-HS"}
+	return conv.LD{A: "pre-A", B: 901, C: "pre-C", D: "pre-D", N: md.Nest{X: "pre-NX", Y: 902, Z: "pre-NZ", In: md.Inner{W: "pre-NW", V: 905}}, P: &md.Nest{X: "pre-PX", Y: 904, Z: "pre-PZ"}, Base: md.Base{E1: "pre-E1", E2: "pre-E2"}, Q: 903, R: "pre-R", L: []string{"pre-L"}, M: map[string]string{"pre": "M"}, G: 907, L2: []int64{908}, H: 909, HS: "pre-HS", HV: "pre-HV"}
 }
 
 `)
